@@ -1,12 +1,16 @@
 package transaction
 
 import (
+	"sync"
+
 	"github.com/glebziz/containers/omap"
 
 	"github.com/glebziz/fs_db/internal/model"
 )
 
 type Repo struct {
+	// the ordered map locks its own updates, but its iterator (Oldest) walks the list without a lock
+	m       sync.RWMutex
 	storage *omap.OMap[string, model.Transaction]
 }
 
